@@ -242,8 +242,14 @@ func (x *fnExec) bindResults(vars map[types.Object]Val, fn *ssa.Function, cl *Cl
 }
 
 func clauseTags(c *Contract, cl *Clause) []string {
-	if len(cl.Tags) > 0 {
-		return cl.Tags
+	var own []string
+	for _, t := range cl.Tags {
+		if t != "TRUSTED" {
+			own = append(own, t)
+		}
+	}
+	if len(own) > 0 {
+		return own
 	}
 	return c.Tags
 }
